@@ -156,7 +156,7 @@ func representMetadataResponse(data map[string]interface{}) []interface{} {
 	payload := data["payload"].(map[string]interface{})
 	topics := ""
 	if payload["topics"] != nil {
-		_topics, _ := json.Marshal(payload["topics"].([]interface{}))
+		_topics, _ := json.Marshal(asList(payload["topics"]))
 		topics = string(_topics)
 	}
 	brokers := ""
@@ -332,7 +332,7 @@ func representProduceRequest(data map[string]interface{}) []interface{} {
 	})
 
 	if topicData != nil {
-		for _, _topic := range topicData.([]interface{}) {
+		for _, _topic := range asList(topicData) {
 			topic := _topic.(map[string]interface{})
 			topicName := topic["topic"].(string)
 			partitions := topic["partitions"].(map[string]interface{})
@@ -430,7 +430,7 @@ func representProduceResponse(data map[string]interface{}) []interface{} {
 	})
 
 	if responses != nil {
-		for i, _response := range responses.([]interface{}) {
+		for i, _response := range asList(responses) {
 			response := _response.(map[string]interface{})
 
 			rep = append(rep, api.SectionData{
@@ -439,7 +439,7 @@ func representProduceResponse(data map[string]interface{}) []interface{} {
 				Data:  representMapAsTable(response, fmt.Sprintf(`response.payload.responses[%d]`, i), []string{"partitionResponses"}),
 			})
 
-			for j, _partitionResponse := range response["partitionResponses"].([]interface{}) {
+			for j, _partitionResponse := range asList(response["partitionResponses"]) {
 				partitionResponse := _partitionResponse.(map[string]interface{})
 				rep = append(rep, api.SectionData{
 					Type:  api.TABLE,
@@ -543,10 +543,10 @@ func representFetchRequest(data map[string]interface{}) []interface{} {
 	})
 
 	if topics != nil {
-		for i, _topic := range topics.([]interface{}) {
+		for i, _topic := range asList(topics) {
 			topic := _topic.(map[string]interface{})
 			topicName := topic["topic"].(string)
-			for j, _partition := range topic["partitions"].([]interface{}) {
+			for j, _partition := range asList(topic["partitions"]) {
 				partition := _partition.(map[string]interface{})
 
 				rep = append(rep, api.SectionData{
@@ -604,11 +604,11 @@ func representFetchResponse(data map[string]interface{}) []interface{} {
 	})
 
 	if responses != nil {
-		for i, _response := range responses.([]interface{}) {
+		for i, _response := range asList(responses) {
 			response := _response.(map[string]interface{})
 			topicName := response["topic"].(string)
 
-			for j, _partitionResponse := range response["partitionResponses"].([]interface{}) {
+			for j, _partitionResponse := range asList(response["partitionResponses"]) {
 				partitionResponse := _partitionResponse.(map[string]interface{})
 				recordSet := partitionResponse["recordSet"].(map[string]interface{})
 
@@ -626,7 +626,7 @@ func representFetchResponse(data map[string]interface{}) []interface{} {
 				})
 
 				if recordBatch["record"] != nil {
-					for k, _record := range recordBatch["record"].([]interface{}) {
+					for k, _record := range asList(recordBatch["record"]) {
 						record := _record.(map[string]interface{})
 						value := record["value"]
 
@@ -659,7 +659,7 @@ func representListOffsetsRequest(data map[string]interface{}) []interface{} {
 	payload := data["payload"].(map[string]interface{})
 	topics := ""
 	if payload["topics"] != nil {
-		_topics, _ := json.Marshal(payload["topics"].([]interface{}))
+		_topics, _ := json.Marshal(asList(payload["topics"]))
 		topics = string(_topics)
 	}
 	repPayload, _ := json.Marshal([]api.TableData{
@@ -689,7 +689,7 @@ func representListOffsetsResponse(data map[string]interface{}) []interface{} {
 	rep = representResponseHeader(data, rep)
 
 	payload := data["payload"].(map[string]interface{})
-	topics, _ := json.Marshal(payload["topics"].([]interface{}))
+	topics, _ := json.Marshal(asList(payload["topics"]))
 	throttleTimeMs := ""
 	if payload["throttleTimeMs"] != nil {
 		throttleTimeMs = fmt.Sprintf("%d", int(payload["throttleTimeMs"].(float64)))
@@ -746,7 +746,7 @@ func representCreateTopicsRequest(data map[string]interface{}) []interface{} {
 	if payload["topics"] == nil {
 		return rep
 	}
-	for i, _topic := range payload["topics"].([]interface{}) {
+	for i, _topic := range asList(payload["topics"]) {
 		topic := _topic.(map[string]interface{})
 
 		rep = append(rep, api.SectionData{
@@ -785,7 +785,7 @@ func representCreateTopicsResponse(data map[string]interface{}) []interface{} {
 	if payload["topics"] == nil {
 		return rep
 	}
-	for i, _topic := range payload["topics"].([]interface{}) {
+	for i, _topic := range asList(payload["topics"]) {
 		topic := _topic.(map[string]interface{})
 
 		rep = append(rep, api.SectionData{
@@ -846,7 +846,7 @@ func representDeleteTopicsResponse(data map[string]interface{}) []interface{} {
 	rep = representResponseHeader(data, rep)
 
 	payload := data["payload"].(map[string]interface{})
-	responses, _ := json.Marshal(payload["responses"].([]interface{}))
+	responses, _ := json.Marshal(asList(payload["responses"]))
 	throttleTimeMs := ""
 	if payload["throttleTimeMs"] != nil {
 		throttleTimeMs = fmt.Sprintf("%d", int(payload["throttleTimeMs"].(float64)))
@@ -880,6 +880,12 @@ func contains(s []string, str string) bool {
 	}
 
 	return false
+}
+
+// asList returns the elements of a JSON array; a null (or absent) array has none.
+func asList(v interface{}) []interface{} {
+	list, _ := v.([]interface{})
+	return list
 }
 
 func representMapAsTable(mapData map[string]interface{}, selectorPrefix string, ignoreKeys []string) (representation string) {
